@@ -125,6 +125,70 @@ theorem sortTxs_perm_pointwise {l l' : List Transaction} (hp : l.Perm l') :
   have := (forall₂_zip this).2 p hpz
   exact cmpTx_eq_of_le this.1 this.2
 
+/-! ### transactions that compare equal print alike -/
+
+theorem cmpStr_eq {a b : String} (h : cmpStr a b = .eq) : a = b :=
+  Std.LawfulEqCmp.eq_of_compare (cmp := (compare : String → String → Ordering)) h
+
+theorem cmpRat_eq_eq {a b : Rat} (h : cmpRat a b = .eq) : a = b := by
+  unfold cmpRat at h
+  split at h
+  · cases h
+  · split at h
+    · cases h
+    · rename_i h1 h2
+      exact Rat.le_antisymm (Rat.not_lt.mp h2) (Rat.not_lt.mp h1)
+
+theorem cmpAccount_eq_name {a b : Account} (h : cmpAccount a b = .eq) : a.name = b.name := by
+  unfold cmpAccount at h
+  simp only at h
+  split at h
+  · cases h
+  · split at h
+    · cases h
+    · exact cmpStr_eq h
+
+/-- what `printPosting` shows of a posting -/
+theorem cmpPosting_eq_print {p q : Posting} (h : cmpPosting p q = .eq) (pad : Nat) : printPosting pad p = printPosting pad q := by
+  unfold cmpPosting at h
+  obtain ⟨h1, h⟩ := Ordering.then_eq_eq.mp h
+  obtain ⟨h2, h⟩ := Ordering.then_eq_eq.mp h
+  obtain ⟨h3, h⟩ := Ordering.then_eq_eq.mp h
+  obtain ⟨_, h5⟩ := Ordering.then_eq_eq.mp h
+  unfold printPosting
+  rw [cmpAccount_eq_name h1, cmpAccount_eq_name h2, cmpRat_eq_eq h3, cmpStr_eq h5]
+
+theorem cmpPostings_eq_print : ∀ {ps qs : List Posting}, cmpPostings ps qs = .eq → ∀ pad,
+    (everyOther ps).map (fun p => printPosting pad p ++ "\n") = (everyOther qs).map (fun p => printPosting pad p ++ "\n")
+  | [], [], _, _ => rfl
+  | [], _ :: _, h, _ => by cases h
+  | _ :: _, [], h, _ => by cases h
+  | [p], [q], _, _ => rfl
+  | [p], q :: q2 :: qs, h, _ => by
+    simp only [cmpPostings] at h
+    obtain ⟨_, h⟩ := Ordering.then_eq_eq.mp h
+    cases h
+  | p :: p2 :: ps, [q], h, _ => by
+    simp only [cmpPostings] at h
+    obtain ⟨_, h⟩ := Ordering.then_eq_eq.mp h
+    cases h
+  | p :: p2 :: ps, q :: q2 :: qs, h, pad => by
+    simp only [cmpPostings] at h
+    obtain ⟨_, h⟩ := Ordering.then_eq_eq.mp h
+    obtain ⟨h2, h⟩ := Ordering.then_eq_eq.mp h
+    simp only [everyOther, List.map_cons, cmpPosting_eq_print h2 pad, cmpPostings_eq_print h pad]
+
+/-- **transactions `transaction.Compare` does not distinguish are printed alike, up to the `@performance` line**
+(which the comparison ignores) -/
+theorem cmpTx_eq_print {t u : Transaction} (h : cmpTx t u = .eq) (pad : Nat) :
+    printTx pad { t with targets := none } = printTx pad { u with targets := none } := by
+  unfold cmpTx at h
+  obtain ⟨h1, h⟩ := Ordering.then_eq_eq.mp h
+  obtain ⟨h2, h3⟩ := Ordering.then_eq_eq.mp h
+  have e1 : t.date = u.date := Int.compare_eq_eq.mp h1
+  unfold printTx
+  simp only [e1, cmpStr_eq h2, cmpPostings_eq_print h3 pad]
+
 /-! ### the built journals -/
 
 theorem padding_perm : ∀ {j j' : List Day}, List.Forall₂ (fun d d' : Day => d.transactions.Perm d'.transactions) j j' →
